@@ -276,8 +276,12 @@ Record dsdesc := mkDsDesc {
   ds_fwd : list (string * bool);   (* ModeWrapper, KDSubset, KDConcatDataset, _InterleavedConcatDataset:
                                       worker_init_fn forwards to every wrapped dataset *)
   ds_wrapper : bool;               (* KDWrapper.worker_init_fn = own _worker_init_fn, then the wrapped dataset *)
-  ds_root : bool                   (* KDDataset.worker_init_fn: one generator seeded from the global RNG, handed to
+  ds_root : bool;                  (* KDDataset.worker_init_fn: one generator seeded from the global RNG, handed to
                                       every registered collator *)
+  ds_transform : bool              (* KDTransform.worker_init_fn (no subclass may override it) re-seeds UNCONDITIONALLY:
+                                      `self.set_rng(get_rng_from_global())` is a top-level statement of its body, not
+                                      behind any branch (worker info, worker count, rank, environment, a flag on the
+                                      object), no early exit in front of it, no state written *)
 }.
 
 Inductive dstack :=
@@ -285,7 +289,9 @@ Inductive dstack :=
 | DWrap (w : wobj) (inner : dstack)
 | DFwd (cls : string) (inner : list dstack).
 
-(* fresh generators are numbered by the order in which get_rng_from_global() draws their seeds *)
+(* fresh generators are numbered by the order in which get_rng_from_global() draws their seeds;
+   `set_rng tbl (Wrk k) t` is what transform.worker_init_fn(rank) does to an admitted member when the hook of
+   KDTransform has the understood shape (ds_transform; otherwise worker_init leaves the wrapper's transforms alone) *)
 Fixpoint wi_trees (tbl : table) (g : guard) (k : nat) (ts : list tree) : nat * list tree :=
   match ts with
   | [] => (k, [])
@@ -326,7 +332,7 @@ Fixpoint worker_init (tbl ctbl : table) (wt : wtable) (ds : dsdesc) (k : nat) (s
   | DWrap (WObj c kids) inner =>
       if ds_wrapper ds then
         let '(k1, kids') := match wlookup wt c with
-                            | Some d => wi_fields tbl (w_wi d) k kids
+                            | Some d => if ds_transform ds then wi_fields tbl (w_wi d) k kids else (k, kids)
                             | None => (k, kids)
                             end in
         let '(k2, inner') := worker_init tbl ctbl wt ds k1 inner in
@@ -345,7 +351,8 @@ Fixpoint worker_init (tbl ctbl : table) (wt : wtable) (ds : dsdesc) (k : nat) (s
       else (k, s)
   end.
 
-Definition dsclosed (ds : dsdesc) : bool := forallb (fun cb : string * bool => snd cb) (ds_fwd ds) && ds_wrapper ds && ds_root ds.
+Definition dsclosed (ds : dsdesc) : bool :=
+  forallb (fun cb : string * bool => snd cb) (ds_fwd ds) && ds_wrapper ds && ds_root ds && ds_transform ds.
 
 (* the draws of a wrapper's own per-item code on the unseeded path *)
 Definition own_draws (wt : wtable) (c : string) : list prov :=
